@@ -2,6 +2,7 @@ package updog
 
 import (
 	"encoding/binary"
+	"errors"
 	"fmt"
 	"sort"
 	"strings"
@@ -34,6 +35,10 @@ func (idx *Index) Execute(q *Query) (*Result, error) {
 
 	idx.mtx.RLock()
 	defer idx.mtx.RUnlock()
+
+	if err := validateExpr(q.Expr); err != nil {
+		return nil, err
+	}
 
 	// the resolved group-by fields are local to this execution; keeping them in
 	// the Query would make a second execution of the same Query see them twice.
@@ -83,6 +88,50 @@ type Expression interface {
 	eval(idx *Index) (*roaring.Bitmap, error)
 	String() string
 	cacheKey() uint64
+}
+
+var errIncompleteExpr = errors.New("query contains an empty expression")
+
+// validateExpr returns an error if the expression tree is incomplete, i.e. if an
+// expression is missing anywhere in it. Such trees can arrive through the gRPC
+// API and must not be evaluated.
+func validateExpr(e Expression) error {
+	switch v := e.(type) {
+	case *ExprEqual:
+		if v == nil {
+			return errIncompleteExpr
+		}
+	case *ExprNot:
+		if v == nil {
+			return errIncompleteExpr
+		}
+
+		return validateExpr(v.Expr)
+	case *ExprAnd:
+		if v == nil {
+			return errIncompleteExpr
+		}
+
+		for _, ee := range v.Exprs {
+			if err := validateExpr(ee); err != nil {
+				return err
+			}
+		}
+	case *ExprOr:
+		if v == nil {
+			return errIncompleteExpr
+		}
+
+		for _, ee := range v.Exprs {
+			if err := validateExpr(ee); err != nil {
+				return err
+			}
+		}
+	case nil:
+		return errIncompleteExpr
+	}
+
+	return nil
 }
 
 func (q *Query) populateGroupBy(columns []string, sch *schema) ([]groupBy, error) {
